@@ -128,3 +128,8 @@ def main(tier, seed):
                           timeout=100,
                           assumptions=["the ill-formed part covers the listed mutation classes only (no grammar model: membership of arbitrary texts is not decided)",
                                        "the renderer is part of the trusted base; it is cross-checked against Polar's parser by the equiv clause"])
+
+
+def replay(path):
+    from ..driver import replay_analysis
+    return replay_analysis("C19", path, want=["parsed", "moments"], builders=[C.b_source, C.b_moments], N=4)
